@@ -205,7 +205,10 @@ struct PrimRun {
         // the result is a function of the operands alone: the same call into a second output object that held something else before must
         // give the same bytes and flag (a path that forgets to store leaves whatever the destination - or the routine's dead stack - held)
         if (!(ob == ab && io == ia) && flag != -77 && flag != -78) {
+            // (when the assembly routines are entered with poisoned state, the repeat uses ANOTHER entry state: CF/OF and scratch registers are not operands either)
+            int em = (int) plan.c("entry", 0); if (em) R.jv_set_entry_mode(em % 4 + 1);
             Buf o2(bank_bytes[ob], 0x5C); env.lib_calls++; int flag2 = R.jv_prim(code, o2.p, regs[ab][ia].p, regs[bb][ib].p);
+            if (em) R.jv_set_entry_mode(em);
             if (flag2 != flag || memcmp(o2.p, regs[ob][io].p, bank_bytes[ob]) != 0)
                 env.fail(env.focus == "C20" ? "C20" : "C03", "result-depends-only-on-operands", strf("primitive %d gives %s into one output object and %s into another that held different bytes before the call (same operands)", code, regs[ob][io].hexs().c_str(), o2.hexs().c_str()));
         }
